@@ -437,6 +437,17 @@ class OracleMixin:
                 self.violate("C13.progress", f"flush of pool {pr.idx} still pending at final quiescence with every gate open")
 
     def final_pool(self, pr, after_close):
+        n0 = len(self.viol)
+        self._final_pool(pr, after_close)
+        if self.excs:
+            for v in list(self.viol[n0:]):
+                c = v["clause"]
+                if c.startswith(("C04.", "C05.", "C02.end_cb_once", "C03.cb_completes")):
+                    self.violate("C12.others_complete", "with injected failures in the run: " + v["msg"])
+            if len(self.viol) == n0:
+                self.sit["C12.others_complete_ok"] += 1
+
+    def _final_pool(self, pr, after_close):
         stuck_ok = pr.size == 0
         for tid, t in sorted(pr.tasks.items()):
             evs = " ".join(t.events) + " " if t.events else ""
